@@ -167,6 +167,8 @@ def classify(ctx, scripts, log):
         kinds.add("split_run")
     for k in kinds:
         ctx.count(k)
+    if kinds:
+        ctx.count_case()
     return kinds
 
 
